@@ -258,6 +258,29 @@ def rule_o4(ctx):
             else:
                 ctx.fail(r, f, "%s records a different size than was allocated for %s" % (comp, info["buf"]), s.line,
                          "allocated %s, recorded %s" % (show(sz), ", ".join(show(f.expand(t.node["rhs"])) for t in mates)))
+        # ... and the size is recorded only where a block was stored: a size written on a path that kept the old block
+        # describes storage that was never allocated with it
+        for f, t in writers:
+            allocs = set()
+            for g, s in stores.get(info["buf"], []):
+                if g is f and alloc_size(f, s.node["rhs"], (s.b, s.i)) is not None and same_expr(_base(t.node["lhs"]), _base(s.node["lhs"])):
+                    allocs.add((s.b, s.i))
+                    rv_ = f.expand(s.node["rhs"])
+                    if rv_ is not None and rv_.get("k") == "var":      # allocated into a local first: the allocation call counts
+                        for pos_, d_ in reaching_defs(f, rv_["n"], (s.b, s.i)):
+                            if pos_ is not None:
+                                allocs.add(tuple(pos_))
+            # only where the function replaces a block it may already hold (it releases the old one with this very size)
+            replaces = any(g is f and same_expr(_base(t.node["lhs"]), _base(f.expand(c.node["args"][1]))) for g, c in info["sites"])
+            if not allocs or not replaces:
+                continue
+            if f.dominated_by((t.b, t.i), blocked=lambda b, i, e: (b, i) in allocs):
+                r.ob(f, "%s written (line %s) only after a fresh block was stored in %s" % (comp, t.line, info["buf"]))
+            else:
+                ctx.fail(r, f, "%s changed without a new block in %s" % (comp, info["buf"]), t.line,
+                         "%s stores %s into %s at line %s on a path that has not stored a fresh allocation into %s: the block "
+                         "kept from before was allocated with another size, and nni_free(%s, %s) is later told the wrong one"
+                         % (f.name, show(f.expand(t.node["rhs"])), comp, t.line, info["buf"], info["buf"], comp))
         r.ob(None, "%s: %d frees use it, %d writers" % (comp, len(info["sites"]), len(writers)))
 
 
@@ -513,6 +536,7 @@ def rule_o12(ctx):
                  "nor a call that is handed its address (paths contradicting a constant-only flag set earlier are not followed) -- "
                  "an indeterminate pointer that reaches a release, a store into an object or the caller is memory corruption "
                  "waiting for the input that takes that path (a size of zero, an empty body)", floor=150)
+    r.follows_values = True
     prog = ctx.prog
     n = 0
     for f in prog.functions:
@@ -573,6 +597,7 @@ def rule_o13(ctx):
                  "assignment of the variable that names it -- hands it on (argument of a call, stored into an object, returned, "
                  "linked again): reading a field of it and walking on loses the only reference, and the teardown that drains "
                  "the list can no longer find it", floor=12)
+    r.follows_values = True
     prog = ctx.prog
     READERS = ("nni_list_first", "nni_list_next", "nni_list_last", "nni_list_active", "nni_list_node_active", "nni_list_empty",
                "nni_list_remove", "nni_list_node_remove")
